@@ -126,14 +126,20 @@ def as_bool_term(v):
     return z3.BoolVal(bool(v))
 
 
-def mk(t, k):
+def is_np_bool(v):
+    import numpy
+    return isinstance(v, numpy.bool_) or (isinstance(v, Sym) and v.k == "bool" and v.np)
+
+
+def mk(t, k, np=False):
     t = smt.simp(t)
     # fold back to concrete when the term is a literal
     if k == "bool":
         if z3.is_true(t):
-            return True
+            return __import__("numpy").bool_(True) if np else True
         if z3.is_false(t):
-            return False
+            return __import__("numpy").bool_(False) if np else False
+        return Sym(t, k, np)
     elif k == "int" and z3.is_int_value(t):
         return t.as_long()
     elif k == "str" and z3.is_string_value(t):
@@ -384,7 +390,7 @@ def binop(ctx, op, a, b, inplace=False):
         ctx.raise_exc("TypeError", ("unsupported operand types (str)",))
     if ka == "bool" and kb == "bool" and isinstance(op, (ast.BitOr, ast.BitAnd, ast.BitXor)):
         ta, tb = term(a), term(b)
-        return mk({ast.BitOr: z3.Or, ast.BitAnd: z3.And, ast.BitXor: z3.Xor}[type(op)](ta, tb), "bool")
+        return mk({ast.BitOr: z3.Or, ast.BitAnd: z3.And, ast.BitXor: z3.Xor}[type(op)](ta, tb), "bool", np=is_np_bool(a) or is_np_bool(b))
     nk = num_kind(a, b)
     ta, tb = term(a, nk), term(b, nk)
     if isinstance(op, ast.Add):
